@@ -63,6 +63,18 @@ var _ massdb.MassDB = (*vsDB)(nil)
 type vsWallet struct {
 	locked bool
 	next   uint32
+	// recorder for the signing path (C05): which entry point, which key object, which bytes
+	signMsgCalls, signHashCalls int
+	signKey                     *pocec.PublicKey
+	signArg                     []byte
+}
+
+// SignHash is not part of PoCWallet today; it is here so that the kit still type-checks (and the oracle fires) should the
+// keeper be switched to the raw-digest entry point.
+func (w *vsWallet) SignHash(pubKey *pocec.PublicKey, hash []byte) (*pocec.Signature, error) {
+	w.signHashCalls++
+	w.signKey, w.signArg = pubKey, append([]byte{}, hash...)
+	return &pocec.Signature{}, nil
 }
 
 func (w *vsWallet) GenerateNewPublicKey() (*pocec.PublicKey, uint32, error) {
@@ -72,7 +84,9 @@ func (w *vsWallet) GenerateNewPublicKey() (*pocec.PublicKey, uint32, error) {
 }
 func (w *vsWallet) GetPublicKeyOrdinal(*pocec.PublicKey) (uint32, bool) { return 0, false }
 func (w *vsWallet) SignMessage(pubKey *pocec.PublicKey, hash []byte) (*pocec.Signature, error) {
-	return nil, errors.New("unused")
+	w.signMsgCalls++
+	w.signKey, w.signArg = pubKey, append([]byte{}, hash...)
+	return &pocec.Signature{}, nil
 }
 func (w *vsWallet) Unlock(password []byte) error { w.locked = false; return nil }
 func (w *vsWallet) Lock()                         { w.locked = true }
